@@ -184,3 +184,30 @@ Proof.
   - exact Hp2.
   - intros a b Ha Hb. apply Hc; [exact Ha|right; exact Hb].
 Qed.
+
+(* filtering commutes with sorted(set()) *)
+Lemma filter_insu p x : forall s, ssorted s ->
+  filter p (insu x s) = if p x then insu x (filter p s) else filter p s.
+Proof.
+  induction s as [|y r IH]; intro Hs.
+  - cbn. destruct (p x); reflexivity.
+  - destruct Hs as [Hy Hr]. cbn [insu]. destruct (x <? y) eqn:E1.
+    + cbn [filter]. destruct (p x) eqn:Px; [|reflexivity].
+      destruct (p y) eqn:Py.
+      * cbn [insu]. rewrite E1. reflexivity.
+      * rewrite insu_insg. symmetry. apply insg_head. split; [|apply ss_filter, Hr].
+        intros z Hz. apply filter_In in Hz as [Hz _]. specialize (Hy z Hz). lia.
+    + destruct (x =? y) eqn:E2.
+      * assert (x = y) by lia. subst y. cbn [filter]. destruct (p x) eqn:Px; [|reflexivity].
+        cbn [insu]. rewrite E1, E2. reflexivity.
+      * cbn [filter]. rewrite (IH Hr). destruct (p y) eqn:Py; destruct (p x) eqn:Px; try reflexivity.
+        cbn [insu]. rewrite E1, E2. reflexivity.
+Qed.
+
+Lemma filter_sortu p l : filter p (sortu l) = sortu (filter p l).
+Proof.
+  induction l as [|x l IH]; [reflexivity|].
+  change (sortu (x :: l)) with (insu x (sortu l)). rewrite filter_insu by apply sortu_ssorted.
+  rewrite IH. cbn [filter]. destruct (p x); reflexivity.
+Qed.
+
